@@ -250,6 +250,72 @@ def _hist_task(item, stop_at=None):
     return acc
 
 
+# ------------------------------------------------------------------ layout sweeps
+# A block with meta["layouts"] is swept once per *layout*: a permutation of the field positions
+# from the family "move one field anywhere, then move one field to the end" (all of them). Under
+# one layout all points of the block are visited back to back in one process, so whatever the
+# library keys on positions (the first eight fields, the fields in the order they appear) meets
+# related points - same layout, one metric's value changed - in a row.
+
+def two_move_layouts(n):
+    """All distinct permutations of range(n) reachable by moving one element to another position
+    and then one element to the end (identity first)."""
+    seen, out = set(), []
+
+    def add(p):
+        t = tuple(p)
+        if t not in seen:
+            seen.add(t)
+            out.append(t)
+
+    base = list(range(n))
+    add(base)
+    add(base[::-1])
+    for i in range(n):
+        for j in range(n):
+            p = base[:i] + base[i + 1:]
+            p.insert(j, base[i])
+            add(p)
+            for k in range(n):
+                q = [x for x in p if x != p[k]] + [p[k]]
+                add(q)
+    return out
+
+
+def _layout_task(t, stop_at=None):
+    core.reset_ambient()
+    bi, lo, hi = t
+    blk = _BLOCKS[bi]
+    twin = blk.twin_block() if blk.twin else None
+    warmed = core.maybe_prior(["E1-layout", blk.name, lo, hi])
+    acc = _NEWACC()
+    acc["_task"] = (bi, -1, -1)
+    acc["prior"] = int(warmed)
+    nAB, nC = len(blk.A) * len(blk.B), len(blk.C)
+    points = [_point(blk, ab, ic) + (ab * nC + ic,) for ab in range(nAB) for ic in range(nC)]
+    P = blk.prefix
+    cache = {}
+    for li in range(lo, hi):
+        for vec, asg, idx in points:
+            f = vec[len(P):].split("/")
+            lay = cache.get(len(f))
+            if lay is None:
+                lay = cache[len(f)] = two_move_layouts(len(f))
+            if li >= len(lay):
+                continue
+            body = "/".join(f[i] for i in lay[li])
+            _VISIT(acc, blk, P + body, asg, idx)
+            if twin is not None:
+                _VISIT(acc, twin, twin.prefix + body, asg, idx)
+            if _stopped(acc, stop_at):
+                return acc
+    for c in acc.get("bad", []):
+        c.setdefault("task", {"layouts": [blk.name, lo, hi]})
+        c.setdefault("tier", _TIER)
+    acc["layout_visits"] = acc.get("n", 0)
+    return acc
+
+
 def _history_items(blocks, tier):
     import itertools
     depth = HIST_DEPTH.get(tier or "quick", HIST_DEPTH["quick"])
@@ -275,8 +341,14 @@ def run(ctx, blocks, visit, new_acc, tasks_per_block=None):
             b.prefix = tables.PREFIX[b.family]
     _BLOCKS, _VISIT, _NEWACC, _TIER = blocks, visit, new_acc, ctx.tier
     tasks = []
-    total = sum(b.size() for b in blocks) or 1
+    ltasks = []
+    total = sum(b.size() for b in blocks if not b.meta.get("layouts")) or 1
     for bi, b in enumerate(blocks):
+        if b.meta.get("layouts"):
+            nl = len(two_move_layouts(b.meta["layouts"]))
+            for lo, hi in core.split_range(nl, 32):
+                ltasks.append((bi, lo, hi))
+            continue
         n = len(b.A) * len(b.B)
         want = tasks_per_block or max(1, min(n, int(round(core.NPROC * 6.0 * b.size() / total)) or 1))
         for lo, hi in core.split_range(n, want):
@@ -286,7 +358,8 @@ def run(ctx, blocks, visit, new_acc, tasks_per_block=None):
     accs = [None] * len(tasks)
     for i, a in zip(order, out):
         accs[i] = a
-    items, depth = _history_items(blocks, ctx.tier)
+    laccs = core.pool_map(_layout_task, ltasks, fresh=True) if ltasks else []
+    items, depth = _history_items([b for b in blocks if not b.meta.get("layouts")], ctx.tier)
     haccs = core.pool_map(_hist_task, items, fresh=True)
     prev = getattr(ctx, "depth_stats", None) or {}
     ctx.depth_stats = {
@@ -314,7 +387,10 @@ def run(ctx, blocks, visit, new_acc, tasks_per_block=None):
               "points_judged_again_from_a_second_thread", "points_also_judged_on_a_str_subclass_argument",
               "points_also_judged_on_a_copy", "points_also_judged_after_a_pickle_round_trip"):
         ctx.depth_stats[k] += prev.get(k, 0)
-    return accs + list(haccs)
+    ctx.depth_stats["layout_sweep_visits"] = prev.get("layout_sweep_visits", 0) + sum(a.get("layout_visits", 0) for a in laccs)
+    ctx.depth_stats["layouts_per_layout_block"] = dict(
+        (b.name, len(two_move_layouts(b.meta["layouts"]))) for b in blocks if b.meta.get("layouts"))
+    return accs + list(laccs) + list(haccs)
 
 
 def run_single_task(blocks, visit, new_acc, name, lo, hi, tier=None):
@@ -342,6 +418,16 @@ def replay_task(blocks, visit, new_acc, case):
         if b.prefix is None:
             b.prefix = tables.PREFIX[b.family]
     _BLOCKS, _VISIT, _NEWACC, _TIER = blocks, visit, new_acc, case.get("tier")
+    if isinstance(case["task"], dict) and "layouts" in case["task"]:
+        name, lo, hi = case["task"]["layouts"]
+        for bi, b in enumerate(blocks):
+            if b.name == name:
+                acc = _layout_task((bi, lo, hi), stop_at=case["input"])
+                hit = [c for c in acc.get("bad", []) if c.get("input") == case["input"]]
+                if hit:
+                    return True, hit[0].get("what", "")
+                return False, "layouts %d..%d of block %s no longer fail on %r" % (lo, hi, name, case["input"])
+        raise core.HarnessError("block %r not found for layout replay" % name)
     if isinstance(case["task"], dict):
         name, seq = case["task"]["history"]
         for bi, b in enumerate(blocks):
